@@ -55,6 +55,8 @@ class Engine(Core, ExprMixin, CallMixin, StmtMixin):
             self.assume(wt)
         if ty.kind == "List":
             self.assume(self.list_len(v) >= 0)
+            if self.mode == "UNROLL":
+                self.assume(self.list_len(v) <= self.bound)       # unwinding assumption on list-valued parameters
         return v
 
     def verify(self, qual, prefix=None):
